@@ -197,6 +197,7 @@ class SimPool:
         name = f"SimPoolWorker-{self._pool_no}-{w}"
         if self.model == "fresh":
             im = fresh_image(self.sim, self._next_pid, name)
+            self.sim.faults["worker_with_fresh_process_image"] += 1
         else:
             im = self._fork_base.copy(self._next_pid, name)
         if self.initializer is not None:
@@ -275,7 +276,10 @@ class SimPool:
         failure: tuple[int, BaseException] | None = None
         assignment = []
         for i, blob in enumerate(blobs):
-            w = (i + sim.choose(self.processes, "worker-for-chunk")) % self.processes
+            shift = sim.choose(self.processes, "worker-for-chunk")
+            w = (i + shift) % self.processes
+            if shift:
+                sim.faults["chunk_taken_out_of_turn"] += 1  # some worker stalled / raced ahead
             if self.maxtasksperchild and self.tasks_done[w] >= self.maxtasksperchild:
                 self.workers[w] = self._new_worker(w)
                 self.tasks_done[w] = 0
